@@ -355,6 +355,33 @@ def gen_many(r, algo, tier="quick"):
     return {"kind": "sys", "cfg": cfg, "pipes": pipes}
 
 
+def gen_steps(r, tier="quick"):
+    """Coinciding memory steps under the priority scheduler: a full pool of multi-operator chains whose operators all
+    last 5 or 10 ticks and hold fixed memory from a handful of whole-GB sizes (some above the 10 % allocation the scheduler
+    gives), so that in one tick several containers step up and down by the same amounts - and queries arriving right after
+    those ticks, when nothing is free."""
+    tps = 10
+    cpus = r.choice([8, 10])
+    ram = 10 * cpus
+    nticks = r.randint(40, 90)
+    cfg = {"algo": "priority", "tps": tps, "duration": float(F(nticks, tps)), "pools": 1, "cpus": cpus, "ram": ram,
+           "multi": True, "over": False}
+    sizes = [1, 2, 3, 8, 10, 11, 12]
+    pipes = []
+    for k in range(cpus):
+        ops = []
+        for i in range(r.choice([2, 2, 3])):
+            d = r.choice([5, 10]) if i < 1 or r.random() < 0.5 else 200
+            ops.append({"par": [i - 1] if i else [], "segs": [[fstr(F(d, tps)), "const", fstr(F(r.choice(sizes))), "0"]]})
+        pipes.append({"prio": r.choice(["BATCH_PIPELINE", "BATCH_PIPELINE", "INTERACTIVE"]), "at": 0, "ops": ops})
+    for t in sorted(set(r.choice([6, 11, 11, 16, 21]) + r.choice([0, 0, 1]) for _ in range(r.randint(1, 4)))):
+        pipes.append({"prio": "QUERY", "at": t, "ops": [{"par": [], "segs": [[fstr(F(r.choice([2, 5]), tps)), "const", "1", "0"]]}]})
+    pipes.sort(key=lambda p_: p_["at"])
+    for k, p in enumerate(pipes):
+        p["id"] = "p%d" % (k + 1)
+    return {"kind": "sys", "cfg": cfg, "pipes": pipes}
+
+
 def gen_chaos(r, tier="quick"):
     """full-loop scenario for the chaos custom scheduler"""
     scn = gen(r, "naive", "chaos", tier, offgrid=True)
